@@ -98,6 +98,34 @@ def Tab.blocks (t : Tab) : List Nat :=
   (if t.core then fixedBlocks t.ndim t.dims ++ knotBlocks t.dims else []) ++
   (if t.periods then [8 * t.ndim] else []) ++ auxBlocks t.auxArr t.aux
 
+/-- the abstract state compared with the real object after every call -/
+def Tab.shape (t : Tab) : Nat × List Dim × Bool × Bool × Bool × List Aux × Bool :=
+  (t.ndim, t.dims, t.core, t.periods, t.auxArr, t.aux, t.broken)
+
+def Tab.isEmpty (t : Tab) : Bool :=
+  t.ndim == 0 && !t.core && !t.periods && !t.auxArr && t.aux.isEmpty && t.dims.isEmpty && !t.broken
+
+/-- The ownership invariant: `ndim = 0` ⇒ nothing is owned; `ndim ≠ 0` ⇒ all arrays are owned
+    (periods are optional: `fit` never allocates them and the destructor tests the pointer). -/
+structure Tab.Own (t : Tab) : Prop where
+  empty : t.ndim = 0 → t.core = false ∧ t.periods = false ∧ t.auxArr = false ∧ t.aux = [] ∧ t.dims = []
+  full : t.ndim ≠ 0 → t.core = true ∧ t.dims.length = t.ndim
+  auxArr : t.aux ≠ [] → t.auxArr = true
+  sound : t.broken = false
+
+/-- The ledger invariant: what the allocator has handed out and not got back is exactly what the
+    object owns, and nothing was ever released that was not live. -/
+structure Tab.Balanced (t : Tab) : Prop where
+  ledger : t.ledger.Perm t.blocks
+  bad : t.bad = 0
+
+structure Tab.Inv (t : Tab) : Prop extends t.Own, t.Balanced
+
+/-- executable versions (used for the decided witnesses and by the driver) -/
+def Tab.ownB (t : Tab) : Bool :=
+  (if t.ndim = 0 then t.isEmpty else t.core && t.dims.length == t.ndim) && (t.aux.isEmpty || t.auxArr) && !t.broken
+def Tab.balancedB (t : Tab) : Bool := t.ledger.isPerm t.blocks && t.bad == 0
+
 /-! ## Programs of allocation steps under the failure environment -/
 
 inductive Step where
@@ -311,7 +339,7 @@ def convolve (c : Cfg) (t : Tab) (cd : Option Nat) (dim nk : Nat) : Out :=
         (if t.periods then [8 * t.ndim] else []) ++ [8 * t.ndim, 8 * t.ndim] ++
         auxEntryBlocks t.aux ++ (if t.auxArr then [8 * t.aux.length] else [])
       let evs := frees ++ r.1 ++ (r.2.1 ++ rest).map .d
-      ⟨{ (t.apply evs) with ndim := 0, dims := [], core := false, periods := false, auxArr := false, aux := [] },
+      ⟨({ t with ndim := 0, dims := [], core := false, periods := false, auxArr := false, aux := [] } : Tab).apply evs,
         r.2.2.1, .threw, evs⟩
     else ⟨{ (t1.apply (frees ++ r.1)) with broken := true }, r.2.2.1, .threw, frees ++ r.1⟩
 
